@@ -352,3 +352,72 @@ def c04(p, tier, replay):
     return v.finish("model_checking", cov, WIRE_ASSUME + [
         "layout of repr(Rust) types is observed (offset_of/size_of), never predicted; enum variant offsets follow from the explicit repr (RFC 2195)",
         "usize/isize are 8 bytes on this platform, identical to their wire form"])
+
+# ------------------------------------------------------------------------------------------------
+# C17: introspection
+# ------------------------------------------------------------------------------------------------
+@prop("C17")
+def c17(p, tier, replay):
+    v = Verdict(p, tier)
+    built, binp = family_build(tier, ["wire"])
+    intro_bin = vlib.cargo_build("intro")
+    # ---- navigation: TLC explores Introspect.tla, every distinct (path, result) is replayed on the real Introspector
+    recs = os.path.join(WORK, "intro_%s.ndjson" % tier)
+    if replay and json.load(open(replay))["record"].get("hist") is not None:
+        open(recs, "w").write(json.dumps(json.load(open(replay))["record"]) + "\n")
+        stats = {"generated": 0, "distinct": 0}
+    else:
+        r = vlib.run_tlc("Introspect.tla", "Introspect_%s.cfg" % tier, "intro_" + tier, workers=8,
+                         timeout=6000 if tier == "thorough" else 1500)
+        if r["violated"]:
+            raise ToolError("Introspect: TLC reports a violation in the specification itself (see %s)" % r["out"])
+        stats = r["stats"]
+        if vlib.printed_json(r["out"], recs) == 0:
+            raise ToolError("Introspect produced no behaviours")
+    res = recs + ".res"
+    vlib.run_bin(intro_bin, ["replay", recs, res])
+    records = open(recs).read().splitlines()
+    nav = 0
+    samples = []
+    for line in open(res):
+        rr = json.loads(line)
+        nav += 1
+        rec = None
+        if rr["fails"] or len(samples) < 2:
+            rec = json.loads(records[rr["i"]])
+        if len(samples) < 2 and rec and len(rec["hist"]) >= 3 and rec["err"] == "":
+            samples.append({"tree": rec["tree"], "limit": rec["limit"], "commands": rec["hist"], "frames": rec["frames"], "total_len": rec["total"]})
+        for f in rr["fails"]:
+            v.report(f["check"], {"t": None, "tree": rec["tree"]}, "limit=%s hist=%s :: %s" % (rec["limit"], json.dumps(rec["hist"]), f["detail"]), rec)
+    # ---- reported length = fetchable children, on every value of the type catalogue
+    lens = 0
+    wrecs = built["wire"][0]
+    if replay and json.load(open(replay))["record"].get("hist") is None:
+        wrecs = os.path.join(WORK, "c17_replay.ndjson")
+        open(wrecs, "w").write(json.dumps(json.load(open(replay))["record"]) + "\n")
+    lres = os.path.join(WORK, "c17_%s.lens" % tier)
+    vlib.run_bin(binp, ["introlen", wrecs, lres])
+    wrecords = open(wrecs).read().splitlines()
+    nontriv = set()
+    for line in open(lres):
+        rr = json.loads(line)
+        lens += 1
+        if rr["obs"] and rr["obs"]["children"] > 0:
+            nontriv.add(rr["i"])
+        for f in rr["fails"]:
+            rec = json.loads(wrecords[rr["i"]])
+            if f["check"].startswith("tool."):
+                raise ToolError("harness: %s" % f["check"])
+            v.report(f["check"], {"t": rec["t"]}, "%s :: %s" % (vlib.show(rec["t"]), f["detail"]), rec)
+    cov = {"states": stats["distinct"], "transitions": stats["generated"], "traces_validated_against_impl": nav,
+           "evaluations": nav + lens, "distinct_nontrivial": nav + len(nontriv),
+           "rule": "navigation: one behaviour per distinct (tree, limit, path, result) state of Introspect.tla reached by command "
+                   "sequences of bounded length; length clause: one evaluation per (type, value) of the wire catalogue, non-trivial = the value has children",
+           "samples": samples, "exhaustive": not replay,
+           "explanation": "TLC explores the Introspector state machine (dive / do_introspect / total_index transcribed with natural-number "
+                          "arithmetic) over abstract trees with duplicate keys, all four commands, depths, disambiguators, indices and "
+                          "child limits, proving NoPanic, TotalIndexDense and TotalIndexIsWalk; every reached state is replayed on the real "
+                          "Introspector (harness Node type) comparing Ok/Err kind, frames, num_frames, total_len and total_index(i)"}
+    return v.finish("model_checking", cov, [
+        "abstract trees: up to 3 children per node, depth <= 3, keys {a,b} with duplicates; command histories of bounded length (MaxHist)",
+        "length clause is checked on the boundary values of the wire catalogue only"])
